@@ -197,6 +197,20 @@ def check_tree(sh, e, rng, seedtag):
             law('eq-not-symmetric', top, '-', str(e))
     except Exception as exn:
         law('eq-raises:%s' % type(exn).__name__, top, '-', '%r on %s' % (exn, e))
+    # --- a twin that differs only in attributes equality does not look at (ExprId.is_term): whatever the library's == says,
+    # equal objects must hash equally, otherwise dict/set based substitution silently misses them
+    try:
+        dflags = {}
+        for t in exprgen.subterms(e):
+            if t.__class__.__name__ == 'ExprId':
+                dflags[exprgen.canon(t)] = ex.ExprId(t.name, t.size, is_term=not t.is_term, is_reg=t.is_reg)
+        if dflags:
+            twin2 = ref_subst(e, dflags)
+            sh.case(('eq-flags', c))
+            if e == twin2 and hash(e) != hash(twin2):
+                law('eq-without-hash', top, 'is_term', 'trees that differ only in ExprId.is_term compare equal but hash differently: %s' % e)
+    except Exception as exn:
+        law('eq-raises:%s' % type(exn).__name__, top, 'is_term', '%r on %s' % (exn, e))
     # --- single-field mutations must compare unequal (or at least have equal hash and value)
     nm = 0
     for k, field, f in mutations(e, rng):
